@@ -559,10 +559,25 @@ func Concat(hi, lo *Term) *Term {
 
 // ---- Arrays
 
+// Lambda builds an array-valued lambda term (z3 syntax); Select beta-reduces it when applied directly.
+func Lambda(bound *Term, body *Term) *Term {
+	B.n++
+	t := &Term{Op: "lambda", Args: []*Term{body}, Sort: SArr(bound.Sort, body.Sort), id: B.n, Bound: []*Term{bound}}
+	inner := map[int]bool{bound.id: true}
+	t.hasBV = hasOuterBound(body, inner, map[int]bool{})
+	return t
+}
+
 func Select(a, i *Term) *Term {
 	is, es := arrSorts(a.Sort)
 	if is != i.Sort {
 		panic(fmt.Sprintf("select index sort %s vs %s", is, i.Sort))
+	}
+	if a.Op == "lambda" && len(a.Bound) == 1 {
+		return Subst(a.Args[0], map[int]*Term{a.Bound[0].id: i})
+	}
+	if a.Op == "ite" && len(a.Args) == 3 && (a.Args[1].Op == "lambda" || a.Args[2].Op == "lambda") {
+		return Ite(a.Args[0], Select(a.Args[1], i), Select(a.Args[2], i))
 	}
 	// read-over-write simplification with syntactically equal / distinct-constant index
 	for a.Op == "store" {
@@ -668,6 +683,8 @@ func Subst(t *Term, m map[int]*Term) *Term {
 		var r *Term
 		if !changed {
 			r = t
+		} else if t.Bound != nil && t.Op == "lambda" {
+			r = Lambda(t.Bound[0], na[0])
 		} else if t.Bound != nil {
 			r = quant(t.Op, t.Bound, na[0])
 		} else {
